@@ -153,7 +153,8 @@ def _check_stats(env, st, Q, N, k, px, tag=""):
 
 CONFIGS = {"one": ((1,), (1, 1)), "two": ((1, 2), (1, 1, 2)), "disjoint": ((1, 3), (2, 1, 1)), "three": ((1,), (1, 1, 1)),
            "rev": ((3, 1), (1, 3)),
-           "small_first": ((1, 2), (1, 2, 2))}   # the tomogram with FEWER than k neighbours comes before a larger one          # query list stored with tomogram 3 before tomogram 1 (a merged list), both shared
+           "small_first": ((1, 2), (1, 2, 2)),
+           "pair": ((1, 1), (1, 1))}             # two query particles and two candidates in ONE tomogram: with k = 2 the rank-major / particle-major order of the rows matters   # the tomogram with FEWER than k neighbours comes before a larger one          # query list stored with tomogram 3 before tomogram 1 (a merged list), both shared
 
 
 def h_nn(env, config="one", k=1, sym_pos="x", cube=False):
@@ -272,7 +273,7 @@ def jobs(tier, seed):
          ("h_nn", {"config": "disjoint", "k": 1, "sym_pos": "x"}),
          ("h_nn", {"config": "one", "k": 1, "sym_pos": "xyz"}),
          ("h_nn", {"config": "one", "k": 2, "sym_pos": "xyz", "cube": True}), ("h_nn", {"config": "small_first", "k": 2, "sym_pos": "x", "cube": True}),
-         ("h_nn", {"config": "disjoint", "k": 2, "sym_pos": "x", "cube": True}), ("h_nn", {"config": "rev", "k": 1, "sym_pos": "x", "cube": True}), 
+         ("h_nn", {"config": "disjoint", "k": 2, "sym_pos": "x", "cube": True}), ("h_nn", {"config": "rev", "k": 1, "sym_pos": "x", "cube": True}), ("h_nn", {"config": "pair", "k": 2, "sym_pos": "x", "cube": True}), 
          ("h_rigid", {"config": "one", "k": 1, "sym_pos": "x"}), ("h_rigid", {"config": "two", "k": 2, "sym_pos": "x", "general": True}), ("h_motion_lemmas", {})]
     if tier == "thorough":
         j += [("h_rigid", {"config": "one", "k": 1, "sym_pos": "x", "heavy": True}), ("h_nn", {"config": "two", "k": 2, "sym_pos": "x", "cube": True})]
